@@ -141,6 +141,29 @@ def run(res, replay=None):
                 if abs(area - f["area"]) > tol["area_tol"]:
                     res.violation("C14:face-area" + geo.mismatch_class(rec), f"cell {gi} face {key}: signed areas of the base triangles sum to {area}, the face area is {f['area']}", dict(ctx, cell=gi, face=str(key)))
                     break
+        # symmetric face integrals = the face list of the tessellation = the non-symmetric list filtered by the rule of the structural model
+        # (C14_sym_is_filtered theorem): keep a face iff it is a wall or periodic face, or left < right, or the right generator is not selected
+        mask = inp.get("mask")
+
+        def fkey(fc):
+            return (fc["left"], fc["right"], tuple(fc["shift"]) if fc["shift"] is not None else None)
+
+        def keep(fc):
+            return fc["right"] is None or fc["shift"] is not None or fc["left"] < fc["right"] or (mask is not None and not mask[fc["right"]])
+        for name, full, sym in (("", o["faces"], o["faces_sym"]),) + ((("with face data: ", o["wf_faces"], o["wf_faces_sym"]),) if "wf_faces_sym" in o else ()):
+            exp = [fkey(fc) for fc in full if keep(fc)]
+            got = [fkey(fc) for fc in sym]
+            if exp != got:
+                miss = [x for x in exp if x not in got][:3]
+                extra = [x for x in got if x not in exp][:3]
+                res.violation("C14:sym-face-list", f"{name}symmetric face integrals are not the rule-filtered per-cell face integrals (mask {mask}): {len(got)} faces, expected {len(exp)}; "
+                              f"missing (left, right, shift) {miss}, unexpected {extra}", ctx)
+                break
+            if any(a["area"] != b["area"] or a["first"] != b["first"] for a, b in zip([fc for fc in full if keep(fc)], sym)):
+                res.violation("C14:sym-face-values", f"{name}a symmetric face integral differs from the same face's per-cell integral", ctx)
+                break
+        if "wf_faces" in o and [fkey(fc) for fc in o["wf_faces"]] != [fkey(fc) for fc in o["faces"]]:
+            res.violation("C14:with-faces-face-list", "face integrals of the cells with face data cover a different list of faces than those without", ctx)
         if k < 1:
             res.sample({"input": T.inp_json(inp), "moments_cell0": [C.b2f(x) for x in o["moments"][0]["m"]] if o["moments"] else None})
     res.notes["moment_tolerance"] = "10 vol_tol max(1, max|coordinate|)^degree"
